@@ -476,15 +476,53 @@ fn e6() -> Vec<Case> {
     out
 }
 
+/// E7: a statement that fails changes nothing.  Each failing statement runs inside try/catch (the error
+/// is handled and the program goes on), then probes look at everything it could have touched, then it
+/// fails again and the probes run again.
+fn e7() -> Vec<Case> {
+    let probe = |e: Expr| st(StmtKind::Try(vec![print_stmt(e)], Some(("err".into(), vec![print_stmt(call(var("type"), vec![var("err")]))])), None));
+    let attempt = |sts: Vec<Stmt>| st(StmtKind::Try(sts, Some(("err".into(), vec![print_stmt(call(var("type"), vec![var("err")]))])), None));
+    // (name, set-up, failing statement, probes)
+    let shapes: Vec<(&str, Vec<Stmt>, Vec<Stmt>, Vec<Expr>)> = vec![
+        ("assign_undefined_global", vec![], vec![expr_stmt(assign("never", num(1.0)))], vec![var("never")]),
+        ("compound_assign_undefined_global", vec![], vec![expr_stmt(Expr::CompoundAssign("never".into(), BinOp::Add, Box::new(num(1.0))))], vec![var("never")]),
+        ("assign_with_failing_value", vec![var_stmt("g", num(5.0))], vec![expr_stmt(assign("g", bin(BinOp::Add, num(1.0), Expr::Nil)))], vec![var("g")]),
+        ("compound_assign_type_error", vec![var_stmt("g", s("text"))], vec![expr_stmt(Expr::CompoundAssign("g".into(), BinOp::Sub, Box::new(num(1.0))))], vec![var("g")]),
+        ("set_item_out_of_range", vec![var_stmt("v", Expr::VecLit(vec![num(1.0), num(2.0)]))], vec![expr_stmt(Expr::SetIndex(Box::new(var("v")), Box::new(num(5.0)), Box::new(num(9.0))))], vec![var("v"), invoke(var("v"), "len", vec![])]),
+        ("set_item_on_tuple", vec![var_stmt("v", Expr::TupleLit(vec![num(1.0), num(2.0)]))], vec![expr_stmt(Expr::SetIndex(Box::new(var("v")), Box::new(num(0.0)), Box::new(num(9.0))))], vec![var("v")]),
+        ("set_field_on_number", vec![var_stmt("n", num(3.0))], vec![expr_stmt(set(var("n"), "f", num(1.0)))], vec![var("n"), get(var("n"), "f")]),
+        ("insert_unhashable_key", vec![var_stmt("m", Expr::MapLit(vec![(num(1.0), num(2.0))]))], vec![expr_stmt(invoke(var("m"), "insert", vec![Expr::VecLit(vec![num(1.0)]), num(3.0)]))], vec![var("m"), invoke(var("m"), "len", vec![])]),
+        ("pop_empty_vec", vec![var_stmt("v", Expr::VecLit(vec![]))], vec![expr_stmt(invoke(var("v"), "pop", vec![]))], vec![var("v"), invoke(var("v"), "len", vec![])]),
+        ("var_with_failing_initialiser_in_block", vec![var_stmt("outer", num(1.0))], vec![var_stmt("inner", index(Expr::VecLit(vec![]), num(3.0))), expr_stmt(assign("outer", num(2.0)))], vec![var("outer")]),
+        ("call_with_wrong_arity", vec![fn_stmt(func("two", &["a", "b"], vec![expr_stmt(assign("touched", num(1.0)))])), var_stmt("touched", num(0.0))], vec![expr_stmt(call(var("two"), vec![num(1.0)]))], vec![var("touched")]),
+        ("for_over_non_iterable", vec![var_stmt("count", num(0.0))], vec![st(StmtKind::For("x".into(), num(5.0), vec![expr_stmt(assign("count", bin(BinOp::Add, var("count"), num(1.0))))]))], vec![var("count")]),
+    ];
+    let mut out = Vec::new();
+    for (_, setup, failing, probes) in shapes {
+        for in_function in [false, true] {
+            let mut body = setup.clone();
+            for _ in 0..2 {
+                body.push(attempt(failing.clone()));
+                for pr in &probes {
+                    body.push(probe(pr.clone()));
+                }
+            }
+            let prog = if in_function { vec![fn_stmt(func("run", &[], body)), expr_stmt(call(var("run"), vec![]))] } else { body };
+            out.push(Case::new("E7_a_failing_statement_changes_nothing", prog));
+        }
+    }
+    out
+}
+
 pub fn cases_for_c04(thorough: bool) -> Vec<Case> {
-    witnesses().into_iter().chain(e4()).chain(e5(if thorough { 5 } else { 4 })).chain(e6()).collect()
+    witnesses().into_iter().chain(e4()).chain(e5(if thorough { 5 } else { 4 })).chain(e6()).chain(e7()).collect()
 }
 
 pub fn run(ctx: &Ctx) -> Report {
     let thorough = ctx.thorough();
     let mut report = Report::new();
     let size = if thorough { 5 } else { 4 };
-    let cases = witnesses().into_iter().chain(e1()).chain(e2(thorough)).chain(e3(thorough)).chain(e4()).chain(e5(size)).chain(e6());
+    let cases = witnesses().into_iter().chain(e1()).chain(e2(thorough)).chain(e3(thorough)).chain(e4()).chain(e5(size)).chain(e6()).chain(e7());
     let hooks = Hooks {
         attribute: &|_c, _m, _o, _mm| None,
         nontrivial: &|_c, m| m.out.len() >= 1 || matches!(m.outcome, Outcome::Uncaught(_)),
@@ -494,7 +532,7 @@ pub fn run(ctx: &Ctx) -> Report {
     mcheck::fill_report(
         &mut report,
         &stats,
-        "every program of the families E1 (every binary/unary/logical operator x every ordered pair of operand kinds), E2/E3 (every operator chain of 3/4 operands in every grouping, printed with minimal and with full parentheses), E4 (evaluation-order probes for every operator and composite expression, compound assignment to every target kind), E5 (every statement tree up to the size bound over block/if/else/else-if/while/for/break/continue/return/var/assign/print, run on every input vector) is executed on the real interpreter and compared with M-eval (printed lines, outcome, error class). non-trivial = prints at least one line or ends in an error; distinct = distinct source text.",
+        "every program of the families E1 (every binary/unary/logical operator x every ordered pair of operand kinds), E2/E3 (every operator chain of 3/4 operands in every grouping, printed with minimal and with full parentheses), E4 (evaluation-order probes for every operator and composite expression, compound assignment to every target kind), E5 (every statement tree up to the size bound over block/if/else/else-if/while/for/break/continue/return/var/assign/print, run on every input vector), E6 (operators applied again to the same operand objects) and E7 (a failing statement of 12 shapes - assignment to an undeclared name, a failing right-hand side, failing compound assignment, element / field / map writes that fail, pop of an empty vec, a var whose initialiser fails, a call of the wrong arity, a for over a non-iterable - at top level and in a function, run twice, with every name and container involved probed afterwards) is executed on the real interpreter and compared with M-eval (printed lines, outcome, error class). non-trivial = prints at least one line or ends in an error; distinct = distinct source text.",
         json!({"statement_tree_nodes": size, "operand_kinds": operand_pool().len(), "operators": 19}),
     );
     report.assumptions = vec![
